@@ -57,6 +57,9 @@ pub mod cfg {
 #[global_allocator]
 static GLOBAL: alloc::Counting = alloc::Counting;
 
+/// the property being checked (for case signatures raised by shared helpers)
+pub static PROP: std::sync::OnceLock<String> = std::sync::OnceLock::new();
+
 pub struct Args {
     pub seed: u64,
     pub n: u64,
@@ -76,6 +79,7 @@ fn main() {
         return;
     }
     let prop = argv[1].to_uppercase();
+    let _ = PROP.set(prop.clone());
     let mut a = Args {
         seed: 1,
         n: 1000,
